@@ -142,3 +142,43 @@ def _byte_field_of(f, op, depth=0):
             if r:
                 return r
     return None
+
+
+LINE_FIELDS = {"line", "end_line", "function_line", "yield_line", "import_line"}
+
+
+def r9_line_base(ctx):
+    r = Result("R9c", "a recorded line number (1-based: the `line` / `end_line` / `function_line` fields of the index records) does "
+                      "not reach `Position.line` (0-based by protocol) through copies and casts alone: it passes a conversion "
+                      "call or an arithmetic step")
+    crate = ctx.bin
+    og = _origins(ctx)
+    n = 0
+    bad = {}
+    for f in crate.real_fns():
+        if f.id.startswith("<") and "LanguageServer" not in f.id:
+            continue
+        for bb, si, pl, rv, sp in f.assigns():
+            if rv[0] == "agg" and rv[1][0] == "adt" and rv[1][1].endswith("::Position") and "line" in rv[1][3]:
+                n += 1
+                terms = og.of_operand(f, rv[2][rv[1][3].index("line")])
+                hit = False
+                for t in terms:
+                    fields = t[3] if len(t) > 3 and isinstance(t[3], tuple) else ()
+                    named = [(o, nm) for o, nm in fields if not o.startswith(("std::", "tuple", "closure:", "core::"))]
+                    if named and named[-1][1] in LINE_FIELDS and not named[-1][0].endswith(("::Position", "::Range")):
+                        born = t[1] if t[0] in ("call", "param", "agg", "expr", "closure-param") else f.id
+                        key = "R9c|%s|%s.%s -> Position.line" % (born, named[-1][0].split("::")[-1], named[-1][1])
+                        bad.setdefault(key, crate.span_str(sp))
+                        hit = True
+                if not hit:
+                    r.ok(sample={"position_at": crate.span_str(sp)} if len(r.samples) < 3 else None)
+    for key, where in sorted(bad.items()):
+        if key in REVIEWED:
+            r.review(key, REVIEWED[key])
+        else:
+            r.violate(key, "a 1-based recorded line flows unconverted into an LSP Position.line (constructed at %s): the position "
+                           "is one line below the token / past the end of the document" % where)
+    r.counts["position_constructions"] = n
+    r.floor("Position constructions", n, 3)
+    return r
